@@ -336,6 +336,9 @@ func configs(r *vk.Run) []sw.SysOpts {
 	add("gop1cap1", lean, true, "rtmp.gop_num", 1, "httpflv.gop_num", 1, "rtmp.single_gop_max_frame_num", 1, "httpflv.single_gop_max_frame_num", 1)
 	add("gop2cap2", lean, true, "rtmp.gop_num", 2, "httpflv.gop_num", 2, "rtmp.single_gop_max_frame_num", 2, "httpflv.single_gop_max_frame_num", 2)
 	add("nopub-start", av, false, "rtmp.gop_num", 1, "httpflv.gop_num", 1)
+	// HTTP-FLV / HTTP-TS served over https only (the sub-session code is the same; the plain listener is off)
+	add("gop1+https-only", av, true, "rtmp.gop_num", 1, "httpflv.gop_num", 1, "httpts.gop_num", 1, "httpflv.enable", false, "httpflv.enable_https", true, "httpts.enable", false, "httpts.enable_https", true)
+	cs[len(cs)-1].Alphabet = append(append([]string{}, av...), "J:ts")
 	// merge-write: buffered residue of the previous GOP must not reach a joiner that waits for a key frame
 	add("gop0+merge", lean, true, "rtmp.merge_write_size", 130)
 	add("gop1+merge", lean, true, "rtmp.merge_write_size", 130, "rtmp.gop_num", 1, "httpflv.gop_num", 1)
